@@ -48,6 +48,21 @@ fn parse<'a>(tok: &mut std::slice::Iter<'a, &'a str>, w: &mut Walk) -> Option<No
             w.nodes[idx] = format!("H:{};B:{}", hex(p.headers().to_string().as_bytes()), hex(p.raw_body()));
             Some(Node::Single(p))
         }
+        // `MultiPart::alternative_plain_html`
+        "H" => {
+            let plain = unhex_str(tok.next()?)?;
+            let html = unhex_str(tok.next()?)?;
+            let m = MultiPart::alternative_plain_html(plain.clone(), html.clone());
+            let idx = w.nodes.len();
+            w.nodes.push(format!("H:{};M:2", hex(m.headers().to_string().as_bytes())));
+            w.boundaries.push(m.boundary());
+            // the two parts as the documented equivalents give them
+            for p in [SinglePart::plain(plain), SinglePart::html(html)] {
+                w.nodes.push(format!("H:{};B:{}", hex(p.headers().to_string().as_bytes()), hex(p.raw_body())));
+            }
+            let _ = idx;
+            Some(Node::Multi(m))
+        }
         "M" => {
             let kind_tok = *tok.next()?;
             // an upper-case kind letter: a Content-ID header is set on the builder before the boundary
